@@ -1,5 +1,6 @@
 """C03 - valid flat Parquet files from any writer decode to exactly what they encode (DESIGN.md 5/C03)."""
 import itertools
+import zlib
 import struct
 
 import numpy as np
@@ -43,7 +44,7 @@ def gen_cases(tier, seed):
         for ver, opt, nulls, use_dict in itertools.product([1, 2], [False, True], ["none", "p20", "all", "runs"], [False, True]):
             if not opt and nulls != "none":
                 continue
-            if quick and (hash((t[0], ver, opt, nulls, use_dict)) % 3):
+            if quick and (zlib.crc32(repr((t[0], ver, opt, nulls, use_dict)).encode()) % 3):
                 continue
             if use_dict and t[1] == "BOOLEAN":
                 continue
